@@ -15,16 +15,17 @@ RULE = ("(a) exhaustive grid: every k <= 20000 (quick: 4000) x {repr(k*(1/tps)),
         "repr(k/tps)), off the grid by >= 1e-3 tick, integers and exponent notation, several pipelines per tick, gaps up to 10^4 "
         "(thorough 10^6) ticks, tick rates 1..100000; (c) gentrace round trips: WorkloadGenerator -> gentrace -> reader versus the "
         "same generator run directly. Oracle: x = Fraction(text) * tps exactly; each pipeline delivered exactly once, never before "
-        "x, in tick ceil(x) (or k when x is within 1e-6 tick above an integer k), file order kept inside a tick, nothing "
+        "x, in tick ceil(x) (or k when x is within 1e-12 relative - float rounding - above an integer k), file order kept inside a tick, nothing "
         "delivered beyond the last tick; round trip: same tick and same pipelines. Non-trivial = trace with >= 2 pipelines in one "
         "tick and >= 1 off-grid arrival (b), round trip with >= 3 arrival events (c); distinct = sha1 of the case JSON")
 ASSUMPTIONS = [
     "rows are in ascending arrival order (the statement's precondition); ties keep file order",
-    "known finding late-on-grid: delivery exactly one tick after k for an arrival within 1e-6 tick of boundary k for which the IEEE "
+    "known finding late-on-grid: delivery exactly one tick after k for an arrival within 1e-12 relative of boundary k for which the IEEE "
     "expression float(text) / (1.0/tps) > k is true; anything else late, early, lost, duplicated or reordered is a violation",
 ]
 FLOORS = {"trace": 100, "roundtrip": 30, "two_in_one_tick_and_off_grid": 50}
 TPS12 = [1, 2, 3, 5, 7, 10, 20, 50, 100, 1000, 10000, 100000]
+TAU_REL = F(1, 10 ** 12)     # float rounding of arrival / (1.0/tps): a few 1e-16 relative; 1e-12 leaves three orders of margin
 HEADER = "pipeline_id,arrival_seconds,priority,operator_id,parents,baseline_cpu_seconds,cpu_scaling,memory_gb,storage_read_gb\n"
 
 
@@ -40,9 +41,9 @@ def allowed_ticks(text, tps):
     x = F(text) * tps
     c = math.ceil(x)
     out = {c}
-    tau = max(F(1, 10 ** 6), x / 10 ** 9)
+    tau = TAU_REL * max(1, x)
     k = math.floor(x)
-    if x - k <= tau:        # within rounding above an integer: that tick is fine too
+    if x - k <= tau:        # within float rounding above an integer: that tick is fine too
         out.add(k)
     return x, out
 
@@ -51,7 +52,7 @@ def is_known_late(text, tps, got):
     """signature of the recorded finding"""
     x = F(text) * tps
     k = round(x)
-    tau = max(F(1, 10 ** 6), x / 10 ** 9)
+    tau = TAU_REL * max(1, x)
     if abs(x - k) > tau:
         return False
     if got != k + 1:
@@ -96,7 +97,7 @@ def judge(arrivals, tps, nticks, delivered, P):
             continue
         if got in ok:
             continue
-        if got < x - max(F(1, 10 ** 6), x / 10 ** 9):
+        if got < x - TAU_REL * max(1, x):
             P("C13:early", f"{pid} arrival {text} s = tick {float(x)} at {tps} ticks/s delivered in tick {got}")
         elif is_known_late(text, tps, got):
             known += 1
@@ -139,9 +140,16 @@ def trace_case(draw, tier):
     ks = sorted(draw(st.lists(st.integers(0, span), min_size=n, max_size=n)))
     arrivals = []
     for k in ks:
-        style = draw(st.sampled_from(["dec", "mul", "div", "off", "off", "dup", "int", "exp", "tiny_above", "tiny_below"]))
+        style = draw(st.sampled_from(["dec", "mul", "div", "off", "off", "dup", "int", "exp", "tiny_above", "tiny_below", "near_pair"]))
         if style == "dup" and arrivals:
             arrivals.append(arrivals[-1])
+            continue
+        if style == "near_pair":
+            # two distinct arrivals a hair apart, the first on a tick boundary: they belong to different ticks
+            a = k / tps
+            b = a * (1 + draw(st.sampled_from([5e-10, 1e-11, 2e-9]))) if a > 0 else 1e-9 / tps
+            arrivals.append(repr(a))
+            arrivals.append(repr(b))
             continue
         if style == "dec":
             s = dec(F(k, tps)) or repr(k / tps)
